@@ -68,6 +68,7 @@ def _implied_literals(t, pol, out):
     if isinstance(t, ast.Call) and dotted(t.func) == "bool" and len(t.args) == 1 and not t.keywords:
         return _implied_literals(t.args[0], pol, out)
     if isinstance(t, ast.BoolOp):
+        out.append((t, pol))
         if (isinstance(t.op, ast.And) and pol) or (isinstance(t.op, ast.Or) and not pol):
             for v in t.values:
                 _implied_literals(v, pol, out)
@@ -491,3 +492,150 @@ def walk_closure(prog, f):
     for g in closure_funcs(prog, f):
         for n in ast.walk(g.node):
             yield g, n
+
+
+# --------------------------------------------------------------------------- semantic guard queries (robust to restructured conditions)
+
+def path_literals(guards):
+    """all literals (substituted test, polarity) implied by the guards of a path"""
+    out = []
+    for g in guards:
+        _implied_literals(g[0], g[1], out)
+    return out
+
+
+def none_state(guards, name):
+    """True when the path's guards imply `name is None`, False when they imply it is not None, else None"""
+    for t, pol in path_literals(guards):
+        if isinstance(t, ast.Compare) and len(t.ops) == 1 and dotted(t.left) == name and isinstance(t.comparators[0], ast.Constant) and t.comparators[0].value is None:
+            if isinstance(t.ops[0], ast.Is):
+                return pol
+            if isinstance(t.ops[0], ast.IsNot):
+                return not pol
+    return None
+
+
+def str_state(guards, name):
+    """(eq, ne): strings the path's guards assert `name` (a dotted path, matched on the substituted test) equal / not equal to.
+    A true disjunction `name == 'a' or name == 'b'` yields eq = {'a','b'}."""
+    eq, ne = None, set()
+    for g in guards:
+        t, pol = g[0], g[1]
+        while isinstance(t, ast.UnaryOp) and isinstance(t.op, ast.Not):
+            t, pol = t.operand, not pol
+        alts = t.values if (isinstance(t, ast.BoolOp) and isinstance(t.op, ast.Or)) else [t]
+        vals = []
+        okall = True
+        for a in alts:
+            if isinstance(a, ast.Compare) and len(a.ops) == 1 and dotted(a.left) == name:
+                c = a.comparators[0]
+                if isinstance(a.ops[0], ast.Eq) and const_str(c) is not None:
+                    vals.append(("eq", const_str(c)))
+                    continue
+                if isinstance(a.ops[0], ast.NotEq) and const_str(c) is not None:
+                    vals.append(("ne", const_str(c)))
+                    continue
+                if isinstance(a.ops[0], ast.In) and isinstance(c, (ast.Tuple, ast.List, ast.Set)) and all(const_str(x) is not None for x in c.elts):
+                    vals.extend(("eq", const_str(x)) for x in c.elts)
+                    continue
+                if isinstance(a.ops[0], ast.Is) and isinstance(c, ast.Constant) and c.value is None:
+                    vals.append(("eq", None))
+                    continue
+            okall = False
+        if not vals:
+            continue
+        if len(alts) == 1:
+            kind, v = vals[0] if len(vals) == 1 else (None, None)
+            if len(vals) > 1:       # membership in a tuple
+                if pol:
+                    eq = set(v for _, v in vals) if eq is None else eq & set(v for _, v in vals)
+                else:
+                    ne |= set(v for _, v in vals)
+                continue
+            if (kind == "eq") == pol:
+                eq = {v} if eq is None else eq & {v}
+            else:
+                ne.add(v)
+        elif okall and all(k == "eq" for k, _ in vals):
+            if pol:
+                s_ = set(v for _, v in vals)
+                eq = s_ if eq is None else eq & s_
+            else:
+                ne |= set(v for _, v in vals)
+    return eq, ne
+
+
+def truth_on_path(expr, guards):
+    """True/False when the path's guards (or constants) decide the boolean expression, else None"""
+    if isinstance(expr, ast.Constant):
+        return bool(expr.value)
+    if isinstance(expr, ast.UnaryOp) and isinstance(expr.op, ast.Not):
+        v = truth_on_path(expr.operand, guards)
+        return None if v is None else (not v)
+    if isinstance(expr, ast.Call) and dotted(expr.func) == "bool" and len(expr.args) == 1:
+        return truth_on_path(expr.args[0], guards)
+    k = _ekey(expr)
+    for g in guards:
+        if _ekey(g[0]) == k:
+            return g[1]
+    for t, pol in path_literals(guards):
+        if _ekey(t) == k:
+            return pol
+    if isinstance(expr, ast.BoolOp):
+        vals = [truth_on_path(v, guards) for v in expr.values]
+        if isinstance(expr.op, ast.And):
+            if any(v is False for v in vals):
+                return False
+            if all(v is True for v in vals):
+                return True
+        else:
+            if any(v is True for v in vals):
+                return True
+            if all(v is False for v in vals):
+                return False
+    v = static_truth(expr)
+    return v
+
+
+def isinstance_state(guards, name, typename="Fxp"):
+    """True when the guards imply isinstance(name, Fxp), False when they imply the contrary, else None"""
+    for t, pol in path_literals(guards):
+        if isinstance(t, ast.Call) and dotted(t.func) == "isinstance" and len(t.args) == 2 and dotted(t.args[0]) == name:
+            ts = t.args[1].elts if isinstance(t.args[1], ast.Tuple) else [t.args[1]]
+            if any(dotted(x) in (typename, "self.__class__") for x in ts):
+                return pol
+    return None
+
+
+def order_facts(guards, rename=self_rename):
+    """Facts(ge=[(a, b)]) from comparison guards between terms: a >= b"""
+    ge = []
+    for t, pol in path_literals(guards):
+        if isinstance(t, ast.Compare) and len(t.ops) == 1 and isinstance(t.ops[0], (ast.Lt, ast.LtE, ast.Gt, ast.GtE)):
+            try:
+                l, r = mkterm(t.left, rename), mkterm(t.comparators[0], rename)
+            except NotATerm:
+                continue
+            op = type(t.ops[0])
+            if not pol:
+                op = {ast.Lt: ast.GtE, ast.LtE: ast.Gt, ast.Gt: ast.LtE, ast.GtE: ast.Lt}[op]
+            if op in (ast.Gt, ast.GtE):
+                ge.append((l, r))
+            else:
+                ge.append((r, l))
+    return ge
+
+
+def simplify_extrema(term, ge):
+    """resolve two-argument max/min atoms whose order is decided by the facts a >= b"""
+    from .terms import Facts
+    facts = Facts(ge=ge)
+    mapping = {}
+    for a in term.all_atoms():
+        if a[0] in ("max", "min") and len(a[1]) == 2:
+            p_, q_ = a[1]
+            if any((x == p_ and y == q_) for x, y in ge) or nonneg(p_ - q_, facts):
+                mapping[a] = p_ if a[0] == "max" else q_
+            elif any((x == q_ and y == p_) for x, y in ge) or nonneg(q_ - p_, facts):
+                mapping[a] = q_ if a[0] == "max" else p_
+    return term.subst(mapping) if mapping else term
